@@ -95,8 +95,10 @@ def strategy(tier):
         st.integers(0, 255), st.integers(0, 255), name, st.integers(0, 255), st.integers(0, 255))
     length = st.one_of(st.integers(1, 1024), st.sampled_from([1, 38, 39, 40, 78, 117, 273, 1024]))
     ver8 = st.tuples(st.integers(0, 65535), st.integers(0, 255), st.integers(0, 255)).map(list)
-    b = st.builds(lambda blk, s, ln, full, en, co: dict({"part": "B", "block": blk, "start": s, "len": ln, "handshake": full}, **({"en": en, "co": co} if full else {})),
-                  _block_strategy(), st.one_of(st.just(0), st.integers(0, 1023)), length, st.sampled_from([False, False, False, True]), ver8, ver8)
+    b = st.builds(lambda blk, s, ln, full, en, co, eager: dict({"part": "B", "block": blk, "start": s, "len": ln, "handshake": full}, **({"en": en, "co": co} if full else {}),
+                                                                **({"eager": eager} if full and eager else {})),
+                  _block_strategy(), st.one_of(st.just(0), st.integers(0, 1023)), length, st.sampled_from([False, False, False, True]), ver8, ver8,
+                  st.sampled_from([0, 0, 3, 10, 40]))
     return st.one_of(a, b, b)
 
 
@@ -280,7 +282,7 @@ def _part_b(res, case):
     with eng.patched():
         with _Capture() as cap:
             if full:
-                spa, ok = stepped.connect_threaded_spa(eng, sim)
+                spa, ok = stepped.connect_threaded_spa(eng, sim, eager=int(case.get("eager", 0)))
                 if not ok:
                     raise SetupFailed("fault-free blocking handshake did not complete")
             else:
@@ -416,6 +418,26 @@ def _part_c(res, case):
         res.fail("C19|shipped|block-size", f"{base}#{si} has {len(snap.bytes)} bytes")
         return
     sim = vworld.make_simulator(snap)
+    if case.get("client", "async") == "async":
+        # a simulator session that loads one snapshot after another: what it holds after the second load is what a fresh simulator
+        # holds after loading only that one (items, their positions, the block)
+        shipped = _shipped()
+        pfi, psi = shipped[(int(case["file"]) * 7 + int(case.get("snap", 0)) + 3) % len(shipped)]
+        prev = GeckoSnapshot.parse_log_file(files[pfi])
+        if psi < len(prev) and len(prev[psi].bytes) == 1024:
+            sim2 = vworld.make_simulator(prev[psi])
+            try:
+                sim2.set_snapshot(snap)
+            except Exception as exc:  # noqa
+                res.fail("C19|shipped|reload-raises", f"loading {base}#{si} into a simulator that held {os.path.basename(files[pfi])}: {type(exc).__name__}: {exc}")
+            else:
+                a1 = {t: (type(a).__name__, a.pos) for t, a in sim.structure.accessors.items()}
+                a2 = {t: (type(a).__name__, a.pos) for t, a in sim2.structure.accessors.items()}
+                if a1 != a2 or sim2.structure.status_block != snap.bytes:
+                    extra = sorted(set(a2) - set(a1))[:5]
+                    res.fail("C19|shipped|reload-differs", f"{base}#{si} loaded into a simulator that held {os.path.basename(files[pfi])} before: "
+                             f"{len(set(a2) - set(a1))} foreign items (e.g. {extra}), {len(set(a1) - set(a2))} missing, "
+                             f"{sum(1 for t in a1 if t in a2 and a1[t] != a2[t])} at other positions than after a fresh load")
     if sim.structure.status_block != snap.bytes:
         res.fail("C19|shipped|load|block", f"{base}#{si}: simulator block differs from the snapshot after load")
     for attr in ("pack_class", "config_class", "log_class"):
@@ -470,6 +492,8 @@ def run_case(case) -> Result:
         block, nseg = _part_b(res, case)
         both = b"'" in block and b'"' in block
         res.nontrivial = both or b"\\'" in block or b"[" in block
+        if case.get("eager"):
+            res.label("B-handshake-socket-thread-runs-inside-start_connect")
         res.label("B-handshake" if case.get("handshake") else "B-transfer", f"B-segments-{'1' if nseg <= 1 else '2-5' if nseg <= 5 else '6+'}")
         if both:
             res.label("B-both-quotes")
